@@ -1,0 +1,23 @@
+//go:build verif
+// +build verif
+
+package sarama
+
+import "sync/atomic"
+
+var verifObserver atomic.Value // of func(kind string, args ...interface{})
+
+// VerifSetObserver installs (or, with nil, removes) the observer called at every verifPoint.
+// The observer runs on the goroutine that reached the point and may block it (steering).
+func VerifSetObserver(f func(kind string, args ...interface{})) {
+	if f == nil {
+		f = func(string, ...interface{}) {}
+	}
+	verifObserver.Store(f)
+}
+
+func verifPoint(kind string, args ...interface{}) {
+	if f, ok := verifObserver.Load().(func(string, ...interface{})); ok && f != nil {
+		f(kind, args...)
+	}
+}
